@@ -103,8 +103,15 @@ class UDPListener:
                 continue
             self.log.debug('Answering UDP broadcast from: %s',
                            format_address(addr))
-            for port in self.ports:
-                self.sock.sendto(self._getMessage(port), addr)
+            try:
+                for port in self.ports:
+                    self.sock.sendto(self._getMessage(port), addr)
+            except OSError as e:
+                # a sender which can not be answered (e.g. source port 0)
+                # must not stop the listener
+                self.log.debug('can not answer %s: %r',
+                               format_address(addr), e)
+                continue
 
     def shutdown(self):
         self.log.debug('shut down of discovery listener')
